@@ -208,7 +208,12 @@ func (c *ChannelStats) Add(a *ChannelStats) {
 		}
 	}
 	c.E2eProcessingLatency.Add(a.E2eProcessingLatency)
-	c.Clients = append(c.Clients, a.Clients...)
+	for _, client := range a.Clients {
+		// an upstream may report null elements
+		if client != nil {
+			c.Clients = append(c.Clients, client)
+		}
+	}
 	sort.Sort(ClientsByHost{c.Clients})
 }
 
